@@ -159,18 +159,27 @@ def strictIncr : List Nat → Bool
   | [_] => true
   | a :: b :: rest => a < b && strictIncr (b :: rest)
 
-/-- rows of `cells` have the lengths of the shape, the entries are `0..N-1` each once,
+/-- all entries are `< N` and pairwise different (visited set kept as a bit mask) -/
+def distinctBelow (N : Nat) : List Nat → Nat → Bool
+  | [], _ => true
+  | v :: rest, seen => decide (v < N) && !(seen.testBit v) && distinctBelow N rest (seen ||| (1 <<< v))
+
+/-- every entry is smaller than the entry below it (rows are compared pairwise on their common columns;
+the shape is non-increasing, so this is all of the lower row) -/
+def colsIncr : List (List Nat) → Bool
+  | [] => true
+  | [_] => true
+  | a :: b :: rest => (List.zipWith (fun x y => decide (x < y)) a b).all id && colsIncr (b :: rest)
+
+/-- the cells have the row lengths of the shape, hold `N` pairwise different numbers `< N` (hence `0..N-1` each once),
 rows increase left to right and columns top to bottom -/
 def isStandard (shape : List Nat) (t : List (List Nat)) : Bool :=
   let c := cells shape t
-  let N := shape.sum
   t.length == shape.length
     && (c.map (·.length)) == shape
-    && (List.range N).all (fun v => (c.flatten.count v) == 1)
-    && c.flatten.length == N
+    && distinctBelow shape.sum c.flatten 0
     && c.all strictIncr
-    && (List.range (shape.headD 0)).all fun col =>
-        strictIncr ((c.filter (·.length > col)).map fun row => row.getD col 0)
+    && colsIncr c
 
 /-- lexicographic `<` on flattened tableaux -/
 def lexLt : List Nat → List Nat → Bool
